@@ -18,6 +18,7 @@ type verifNode struct {
 	consumeTarget  bool
 	consumeBubble  bool
 	cmdOnTarget    Command
+	cmdOnFocusIn   Command
 }
 
 func verifKind(ev vaxis.Event) int {
@@ -40,6 +41,9 @@ func (n *verifNode) HandleEvent(ev vaxis.Event, ph EventPhase) (Command, error) 
 		p = 2
 	}
 	*n.log = append(*n.log, verifLogEntry{n.id, p, verifKind(ev)})
+	if verifKind(ev) == 1 {
+		return n.cmdOnFocusIn, nil
+	}
 	if verifKind(ev) != 0 {
 		return nil, nil
 	}
@@ -157,19 +161,40 @@ func VerifC15Commands() {
 		cmd = []Command{RefreshCmd{}, ConsumeAndRedraw()}
 		wantRefresh, wantRedraw, wantConsume = true, true, true
 	}
+	// the newly focused widget may pass the focus on from its FocusIn handler: to a third
+	// widget, to itself (no change) or back to the old one
+	c := &verifNode{id: 2, log: &log}
+	fwd := zzverif.Choose("forward", 4)
+	chain := []*verifNode{b}
+	switch fwd {
+	case 1:
+		b.cmdOnFocusIn = FocusWidgetCmd(c)
+		chain = append(chain, c)
+	case 2:
+		b.cmdOnFocusIn = FocusWidgetCmd(b)
+		chain = append(chain, b)
+	case 3:
+		b.cmdOnFocusIn = FocusWidgetCmd(a)
+		chain = append(chain, a)
+	}
 	app.handleCommand(cmd)
 	zzverif.Assert(app.redraw == wantRedraw && app.refresh == wantRefresh && app.shouldQuit == wantQuit && app.consumeEvent == wantConsume, "command-flags-set-exactly")
-	outs, ins := 0, 0
-	for _, e := range log {
-		if e.kind == 2 && e.node == 0 {
-			outs++
-		}
-		if e.kind == 1 && e.node == 1 {
-			ins++
-		}
-	}
 	if focus {
-		zzverif.Assert(outs == 1 && ins == 1 && len(log) == 2 && app.fh.focused == Widget(b), "one-focus-out-and-one-focus-in")
+		// every change of focus: one FocusOut to the widget that had it, one FocusIn to the
+		// widget that gets it, nothing else
+		var want []verifLogEntry
+		cur := a
+		for _, t := range chain {
+			if t != cur {
+				want = append(want, verifLogEntry{cur.id, 1, 2}, verifLogEntry{t.id, 1, 1})
+				cur = t
+			}
+		}
+		same := len(want) == len(log)
+		for i := 0; same && i < len(want); i++ {
+			same = want[i] == log[i]
+		}
+		zzverif.Assert(same && app.fh.focused == Widget(cur), "one-focus-out-and-one-focus-in-per-focus-change")
 	} else {
 		zzverif.Assert(len(log) == 0, "no-focus-events-without-focus-command")
 	}
